@@ -167,6 +167,30 @@ def is_under(path: str, directory: str) -> bool:
     return path == directory or path.startswith(directory.rstrip(os.sep) + os.sep)
 
 
+def is_file_on_disk(path: str) -> bool:
+    """A non-directory entry of a listing counts as a file on disk iff it can be
+    stat'ed (following symlinks).  A dangling symlink, a symlink loop or an entry
+    that vanished after the listing is not a file: a scan skips exactly that
+    entry and keeps every other entry of the same directory."""
+    try:
+        os.stat(path)
+    except OSError:
+        return False
+    return True
+
+
+def unstatable_entries(directory: str) -> list:
+    """Absolute paths of the non-directory entries below ``directory`` that cannot
+    be stat'ed (for workload generators and coverage counters)."""
+    out = []
+    for cur, _subdirs, files in os.walk(directory):
+        for fn in files:
+            ap = os.path.join(os.path.normpath(cur), fn)
+            if not is_file_on_disk(ap):
+                out.append(ap)
+    return sorted(out)
+
+
 def _rel_subdir(abs_dir: str, base: str) -> str:
     rel = os.path.relpath(abs_dir, base)
     return '' if rel == '.' else rel
@@ -300,7 +324,8 @@ class RefIndex:
                 continue
             sub = _rel_subdir(cur_n, dir_abs)
             for fn in files:
-                items[(sub, fn)] = dir_abs
+                if is_file_on_disk(os.path.join(cur_n, fn)):
+                    items[(sub, fn)] = dir_abs
         d.items = items
         # the scan defines the region again
         self.dontcare = {p for p in self.dontcare if self.innermost_owner(p) != dir_abs}
@@ -356,6 +381,10 @@ class RefIndex:
                     if ap in seen:
                         continue
                     seen.add(ap)
+                    try:
+                        os.stat(ap)
+                    except OSError:
+                        continue    # not a file on disk (dangling symlink, loop, vanished)
                     owner = self.innermost_owner(ap)
                     out[owner].add((_rel_subdir(cur_n, owner), fn))
         return out
